@@ -3,7 +3,7 @@ package main
 // Secure link.  Request strings are SYMBOLIC: a value is a list of atoms joined by "."
 //
 //	c<hex>   literal bytes
-//	t<off>   the decimal text of (now + off) seconds, now = time.Now() at exec time, 3600 <= |off| <= 1e8
+//	t<off>   the decimal text of (now + off) seconds, now = the second in which the whole exec runs, |off| <= 1e8
 //	e<pre>   encode(pre) = base64url-nopad(md5(pre)); pre = plain atoms (c/t) joined by "~", "-" = empty
 //
 // so that an op line is independent of the wall clock and the Lean model can decide "checksum equals
@@ -57,7 +57,7 @@ func offOK(s string) (int64, bool) {
 	if a < 0 {
 		a = -a
 	}
-	return n, a >= 3600 && a <= 100000000
+	return n, a <= 100000000
 }
 
 // plainAtom concretises c<hex> / t<off>.
@@ -139,10 +139,23 @@ func execSlink(f []string) string {
 	if f[0] != "0" && f[0] != "1" {
 		return "bad-op"
 	}
-	now := time.Now().Unix()
-	if now < 1100000000 || now > 2900000000 {
-		panic("clock out of the range the op well-formedness rules assume")
+	// Checker.Check reads time.Now() itself (no seam).  A run counts only if the clock shows the same second
+	// before and after it, so that t<off> is exact (including off = 0, the now == expires boundary) and
+	// scheduling jitter can never decide a verdict.
+	for try := 0; try < 50; try++ {
+		now := time.Now().Unix()
+		if now < 1100000000 || now > 2900000000 {
+			panic("clock out of the range the op well-formedness rules assume")
+		}
+		res := execSlinkAt(f, now)
+		if time.Now().Unix() == now {
+			return res
+		}
 	}
+	return "err:clock"
+}
+
+func execSlinkAt(f []string, now int64) string {
 	var rfs []*mod_secure_link.RuleFile
 	for _, rs := range splitList(f[1], "/") {
 		p := strings.Split(rs, ",")
@@ -415,7 +428,7 @@ func genSlink(r *vh.Rand) string {
 		case 0:
 			v = "t-" + strconv.Itoa(r.Range(3600, 200000))
 		case 1:
-			v = "t" + r.Pick("3600", "-3600", "100000000", "-100000000")
+			v = "t" + r.Pick("0", "0", "1", "-1", "2", "-2", "3600", "-3600", "100000000", "-100000000")
 		case 2:
 			v = r.Pick("-", "c"+hx("abc"), "c"+hx("+5"), "c"+hx("-5"), "c"+hx("0"), "c"+hx("99999999999999999999"), "c"+hx("9223372036854775807"),
 				"c"+hx("9223372036854775808"), "c"+hx("-9223372036854775808"), "c"+hx("1e9"), "c"+hx("0x7fffffff"), "c"+hx("4000000000"), "c"+hx("999999999"),
